@@ -409,15 +409,20 @@ Fixpoint run_entries (rest done : list call) (g : graph) (hs : list nat) (h : li
 Definition has_reg (h : list hentry) : bool :=
   existsb (fun e => match e with EReg _ => true | _ => false end) h.
 
+Definition run2 (prog hist : list val) : val :=
+  match dec_prog prog, dec_hist hist with
+  | Some p, Some h =>
+      let h' := if has_reg h then h else EReg (length p) :: h in
+      let '(obs, g, hs) := run_entries p [] [] [] h' (mkSt [] []) in
+      VTup [obs_struct g; VList (map zi hs); VList obs]
+  | _, _ => VBad
+  end.
+
+(* an optional third component describes the clock (batch duration, start): the history then lists tick
+   numbers, which is all the model needs -- the times of successive ticks are strictly increasing *)
 Definition run (c : val) : val :=
   match c with
-  | VTup [VList prog; VList hist] =>
-      match dec_prog prog, dec_hist hist with
-      | Some p, Some h =>
-          let h' := if has_reg h then h else EReg (length p) :: h in
-          let '(obs, g, hs) := run_entries p [] [] [] h' (mkSt [] []) in
-          VTup [obs_struct g; VList (map zi hs); VList obs]
-      | _, _ => VBad
-      end
+  | VTup [VList prog; VList hist] => run2 prog hist
+  | VTup [VList prog; VList hist; _] => run2 prog hist
   | _ => VBad
   end.
